@@ -834,6 +834,17 @@ archive_read_data(struct archive *_a, void *buff, size_t s)
 	bytes_read = 0;
 	dest = (char *)buff;
 
+	/*
+	 * A block left over from an earlier call belongs to an entry that
+	 * is no longer being read (the handle failed, was closed, ...):
+	 * forget it, so that archive_read_data_block() below reports the
+	 * misuse instead of us copying from memory that may be gone.
+	 */
+	if (a->state != ARCHIVE_STATE_DATA) {
+		a->read_data_remaining = 0;
+		a->read_data_offset = a->read_data_output_offset;
+	}
+
 	while (s > 0) {
 		if (a->read_data_offset == a->read_data_output_offset &&
 		    a->read_data_remaining == 0) {
